@@ -1,4 +1,6 @@
 import NdnModel.CodecWF
+import NdnModel.PacketEnc
+import NdnModel.Cert
 /- GENERATED on every run by harness/props/c07.py from the live `_encoded_fields` of the four packet
    classes.  Do not edit. -/
 namespace Ndn.Gen.C07
@@ -11,5 +13,10 @@ def cert : List Schema := [.marker, .marker, .marker, .marker, .marker, (.name 7
 
 /-- the four packet schemas are in the fragment the decoder theorems quantify over -/
 theorem packet_schemas_ok : [interest, data, lp, cert].all pFs = true := by decide
+
+/-- field order, Type numbers, fixed lengths, marker positions and ignore_critical flags of the three
+    network-packet classes are the ones the packet models (and the packet specification) fix -/
+theorem schemas_pinned : interest = Ndn.Packet.interestFs ∧ data = Ndn.Packet.dataFs ∧
+    cert = Ndn.Cert.certFs := ⟨rfl, rfl, rfl⟩
 
 end Ndn.Gen.C07
